@@ -395,6 +395,19 @@ def gen_validate(rng, count):
             else:
                 cfg['range'] = rbounds(rng)
             obj = score_obj(rng)
+            if kind == 'range' and rng.random() < 0.12:
+                # score sums a hair off a bound (10^-12 .. 10^-20), or exactly on a bound that is no short decimal: exact arithmetic only
+                b = rng.choice([Fraction(1), Fraction(2), Fraction(2, 3), Fraction(5, 7), Fraction(10)])
+                eps = rng.choice([0, 0, 1, -1]) * Fraction(1, 10 ** rng.choice([10, 12, 20]))
+                k = rng.randint(1, 3)
+                parts = [b / k] * k
+                parts[-1] += eps
+                obj = ['f', [['t', [['c', 0, i + 1], ['n', str(x)]]] for i, x in enumerate(parts)]]
+                side = rng.choice(['both', 'lo', 'hi'])
+                cfg['sums'], cfg['sums_dict'] = [[], [str(b) if side != 'hi' else None, str(b) if side != 'lo' else None]], False
+                cfg['range'] = [None, None] if rng.random() < 0.5 else ['0', '100']
+                cfg['nsc'] = [None, None]
+                cfg['nom'] = [0, False]
         if not hashable(obj) and obj[0] != 'l':
             continue
         if obj[0] in ('t', 'f') and not all(hashable(x) for x in obj[1]):
